@@ -412,6 +412,9 @@ def runCsLine (r : Report) (sec : Nat) (cfg : CsCfg) (l : Line) : Report :=
       let r := match csBodyMonitor env cfg req obs with
         | some msg => r.violation sec l.idx s!"{msg} [{showResp obs}]"
         | none => r
+      let r := match csCompleteMonitor env cfg req obs with
+        | some msg => r.violation sec l.idx s!"{msg} [{showResp obs}]"
+        | none => if csCovers env cfg req ∧ obs.ran then r.addCover "cs-covering-signature-reached-the-handler" else r
       let r := labelCheck r sec l.idx "cs" (kv? a "mut") (cfg.strict && gated && req.uri.isEmpty) obs.ran (showResp obs)
       -- encrypted round trip, for verified encrypted requests whose whole body the framing delivers
       let r := match hdrRes with
